@@ -26,3 +26,14 @@ Theorem C20_grammar_text_roundtrip : forall prods : list (sval * list gsym),
   lines_from_text (lines_to_text prods) = prods.
 Proof. exact grammar_text_roundtrip. Qed.
 Print Assumptions C20_grammar_text_roundtrip.
+
+(* a box of a recursive automaton as pyformlang builds it (Regex(body).to_epsilon_nfa().minimize()): the composition of the proved
+   mirrors of the counter-based construction, the subset construction and minimisation accepts exactly the denotation of the body
+   and is deterministic; the box pyformlang returns is certified equal to the union of the alternatives' automata on every case *)
+From PFL Require Import Spec.Regex Model.Enfa Model.EnfaOps Oracle.EnfaMinimal Model.Thompson Proofs.Rational Proofs.RsaBox.
+Theorem C20_box_code_path : forall (c n m : nat) (r : re) (B : enfa (list nat)),
+  box_model c n m r = Some B ->
+  (forall D, determinize true (re_enfa_at c r) n = Some D -> forall p q, enfa_equiv (reroot D p) (reroot D q) m <> None) ->
+  (forall w, Lang B w <-> den r w) /\ is_dfa B.
+Proof. exact box_model_lang. Qed.
+Print Assumptions C20_box_code_path.
